@@ -227,6 +227,8 @@ pub trait KmerApi<A: SxK>: Send + Sync {
     fn from_usize(&self, x: usize) -> Option<u128>;
     // ---- observation -----------------------------------------------------------------
     fn display(&self, v: u128) -> String;
+    /// format the k-mer `first` into sinks that fail (half way, and at once), then format `v` normally
+    fn display_after_failed_write(&self, first: u128, v: u128) -> String;
     /// format!("{:>w$}|{:<w$}|{:^w$}", kmer, kmer, kmer)
     fn display_padded(&self, v: u128, w: usize) -> String;
     fn len(&self, v: u128) -> (usize, bool);
@@ -304,6 +306,9 @@ impl<A: SxK, const K: usize, S: Store> KmerApi<A> for KOps<A, K, S> {
     }
     fn display(&self, v: u128) -> String {
         Self::mk(v).to_string()
+    }
+    fn display_after_failed_write(&self, first: u128, v: u128) -> String {
+        bsv::fixture::display_after_failed_write(&Self::mk(first), K, &Self::mk(v))
     }
     fn display_padded(&self, v: u128, w: usize) -> String {
         let k = Self::mk(v);
